@@ -14,6 +14,10 @@
 //	    pt[i] = byte(i*167 + seed*13 + (i>>8)*31); same layout, calls and checks as `enc`
 //	    -> ct <len> <fnv1a-64 hex> in <same|changed> arr <same|changed@idx:hex..> rt <ok|len hash> darr <same|changed@..> conc <ok|diff>
 //
+//	seq | new <id> <opts> <key> ; use <id> <pt> ; ...
+//	    several cipher objects alive at once in this process (key / IV / mode FAMILIES, older ciphers used again after
+//	    newer ones were created): one token per op  n:ok | n:panic-key | u:<ct hex>:<same|rt hex> | u:panic-.. | u:noid
+//
 //	<opts> = "-" | comma separated  cbc | cfb | iv:<hex>      (hex "-" = empty everywhere else)
 package main
 
@@ -196,7 +200,56 @@ func changedOr(before, after []byte) string {
 	return "same"
 }
 
+func execSeq(body string) string {
+	ciphers := map[string]aesx.ICipher{}
+	var outs []string
+	for _, op := range strings.Split(body, " ; ") {
+		w := strings.Fields(op)
+		res := func() (res string) {
+			defer func() {
+				if r := recover(); r != nil {
+					res = strings.ReplaceAll(canonPanic(r), " ", "-")
+				}
+			}()
+			switch {
+			case len(w) == 4 && w[0] == "new":
+				delete(ciphers, w[1])
+				res = "n:panic-key"
+				func() {
+					defer func() { recover() }()
+					ciphers[w[1]] = aesx.NewCipher(unhex(w[3]), parseOpts(w[2])...)
+					res = "n:ok"
+				}()
+				return res
+			case len(w) == 3 && w[0] == "use":
+				ci, ok := ciphers[w[1]]
+				if !ok {
+					return "u:noid"
+				}
+				pt := unhex(w[2])
+				res = "u:panic-iv"
+				ct := ci.Encrypt(append([]byte{}, pt...))
+				rt := ci.Decrypt(append([]byte{}, ct...))
+				rtS := "same"
+				if !bytes.Equal(rt, pt) {
+					rtS = hexs(rt)
+				}
+				return "u:" + hexs(ct) + ":" + rtS
+			}
+			return "bad-op"
+		}()
+		if strings.HasPrefix(res, "panic-") {
+			res = "u:" + res
+		}
+		outs = append(outs, res)
+	}
+	return strings.Join(outs, " ")
+}
+
 func exec(c *hx.Ctx, line string) (out string) {
+	if strings.HasPrefix(line, "seq | ") {
+		return execSeq(line[6:])
+	}
 	defer func() {
 		if r := recover(); r != nil {
 			out = canonPanic(r)
@@ -446,6 +499,111 @@ func gen(c *hx.Ctx) {
 		emitEnc(c, opts, r.Bytes(ks), r.Bytes(r.Intn(8)), pt, spareFor(c, r.Intn(5), n), r.Bytes(r.Intn(8)))
 		c.Count("enc_random_long")
 	}
+	// 6. FAMILIES of related keys / IVs / modes inside this one process: variants of a base key that differ only in the
+	//    last byte, the last 8 bytes, bytes 16.., the first byte, or only in length (a 16-byte key that is the prefix of a
+	//    24/32-byte key), in both orders; several ciphers alive at once, the older one used again after the newer was made
+	flip := func(b []byte, from, to int) []byte {
+		v := append([]byte{}, b...)
+		for i := from; i < to && i < len(v); i++ {
+			v[i] ^= byte(1 + r.Intn(255))
+		}
+		return v
+	}
+	keyVariant := func(base []byte, kind int) []byte {
+		L := len(base)
+		switch kind {
+		case 0:
+			return flip(base, L-1, L) // last byte
+		case 1:
+			return flip(base, L-8, L) // last 8 bytes
+		case 2:
+			if L > 16 {
+				return flip(base, 16, L) // everything behind the first block
+			}
+			return flip(base, 8, L)
+		case 3:
+			return flip(base, 0, 1) // first byte
+		case 4: // same bytes, other length
+			other := []int{16, 24, 32}[r.Intn(3)]
+			for other == L {
+				other = []int{16, 24, 32}[r.Intn(3)]
+			}
+			if other < L {
+				return append([]byte{}, base[:other]...)
+			}
+			return append(append([]byte{}, base...), r.Bytes(other-L)...)
+		case 5:
+			if L > 16 {
+				return flip(base, 16, 17) // first byte behind the first block
+			}
+			return flip(base, 15, 16)
+		}
+		return append([]byte{}, base...) // identical key (a cache hit must be harmless)
+	}
+	ivVariant := func(base []byte, kind int) string {
+		switch kind {
+		case 0:
+			return "iv:" + hex.EncodeToString(flip(base, 15, 16))
+		case 1:
+			return "iv:" + hex.EncodeToString(flip(base, 0, 1))
+		case 2:
+			return "" // default IV
+		}
+		return "iv:" + hex.EncodeToString(base)
+	}
+	join := func(parts ...string) string {
+		var p []string
+		for _, x := range parts {
+			if x != "" && x != "-" {
+				p = append(p, x)
+			}
+		}
+		if len(p) == 0 {
+			return "-"
+		}
+		return strings.Join(p, ",")
+	}
+	famRounds := c.Budget(6, 60)
+	for round := 0; round < famRounds; round++ {
+		for _, ks := range keySizes {
+			for kind := 0; kind <= 6; kind++ {
+				for order := 0; order < 2; order++ {
+					base := r.Bytes(ks) // a fresh family for every order: nothing about it is known to the process yet
+					other := keyVariant(base, kind)
+					iv := r.Bytes(16)
+					a := [2]string{join(modes[r.Intn(3)], ivVariant(iv, 3)), hexs(base)}
+					b := [2]string{join(modes[r.Intn(3)], ivVariant(iv, r.Intn(4))), hexs(other)}
+					if order == 1 {
+						a, b = b, a
+					}
+					pt1, pt2 := r.Bytes(r.Range(0, 40)), r.Bytes(r.Range(17, 48))
+					// (i) consecutive independent lines
+					emitEnc(c, a[0], unhex(a[1]), nil, pt1, spareFor(c, r.Intn(5), len(pt1)), nil)
+					emitEnc(c, b[0], unhex(b[1]), nil, pt1, spareFor(c, r.Intn(5), len(pt1)), nil)
+					// (ii) both alive at once, older used again after the newer one was created, a third one on top
+					base2 := r.Bytes(ks)
+					other2 := keyVariant(base2, kind)
+					if order == 1 {
+						base2, other2 = other2, base2
+					}
+					third := keyVariant(base2, r.Intn(7))
+					c.Emit("seq | new a %s %s ; use a %s ; new b %s %s ; use b %s ; use a %s ; new c %s %s ; use a %s ; use c %s ; use b %s ; new a %s %s ; use a %s",
+						a[0], hexs(base2), hexs(pt1), b[0], hexs(other2), hexs(pt1), hexs(pt2),
+						join(modes[r.Intn(3)], ivVariant(iv, r.Intn(4))), hexs(third), hexs(pt1), hexs(pt2), hexs(pt2),
+						b[0], hexs(other2), hexs(pt1))
+					c.Count(fmt.Sprintf("family_key_kind%d", kind))
+				}
+			}
+		}
+		// IV and mode families on ONE key: same key, IVs differing in one byte / default, both modes, interleaved
+		key := r.Bytes(keySizes[r.Intn(3)])
+		iv := r.Bytes(16)
+		pt := r.Bytes(r.Range(1, 48))
+		c.Emit("seq | new a %s %s ; new b %s %s ; new c %s %s ; new d %s %s ; use a %s ; use b %s ; use c %s ; use d %s ; use a %s ; use c %s",
+			join("cbc", ivVariant(iv, 3)), hexs(key), join("cbc", ivVariant(iv, 0)), hexs(key), join("cfb", ivVariant(iv, 3)), hexs(key),
+			join(modes[r.Intn(3)], ivVariant(iv, r.Intn(3))), hexs(key), hexs(pt), hexs(pt), hexs(pt), hexs(pt), hexs(pt), hexs(pt))
+		c.Count("family_iv_mode")
+	}
 	// 5. LARGE inputs (size classes around and above 64 KiB, where a bulk / zero-copy path would start), each a prefix of a
 	//    larger backing array with spare capacity {0, 1, pad-1, pad, 16, 64} filled with a sentinel
 	bigLens := []int{65535, 65536, 65537, 65536 + 15, 65536 + 16, 100000}
@@ -478,8 +636,10 @@ func gen(c *hx.Ctx) {
 	}
 	for i, n := range bigLens {
 		for kind := 0; kind < 6; kind++ {
-			emitBig([]string{"-", "cbc"}[(i+kind)%2], n, kind)
-			if c.Thorough() || kind == 0 || kind == 4 {
+			if c.Thorough() || n >= 65536 || kind == 3 || kind == 5 { // quick: below the 64 KiB class only two spare classes
+				emitBig([]string{"-", "cbc"}[(i+kind)%2], n, kind)
+			}
+			if c.Thorough() || kind == 4 {
 				emitBig("cfb", n, kind)
 			}
 		}
